@@ -53,7 +53,7 @@ CONFIG = dict(
         "Rbgp.Api.Props.s27_roundtrip_failures",
         "Rbgp.Api.Props.s27_labeled_prefix_crashes",
     ],
-    harness=dict(kind="daemon", test="verif_main_hook::c17::verif_main"),
+    harness=dict(kind="daemon", test="event::verif_event::c17::verif_main"),
     profiles=["debug"],
     n_quick=4000, n_thorough=200000, shards=12,
     impl_only_re=r"^\(x ",
@@ -141,7 +141,7 @@ def gen_segments(r, max_hops=255):
     segs, hops = [], 0
     for _ in range(r.pick([0, 1, 1, 1, 2, 2, 3, 5])):
         t = r.pick([1, 2, 2, 2, 3, 4])
-        n = r.pick([0, 1, 1, 2, 3, 3, 5, 8, 254, 255]) if r.chance(1, 12) else r.pick([0, 1, 1, 2, 3, 4])
+        n = r.pick([0, 1, 1, 2, 3, 3, 5, 8, 254, 255]) if r.chance(1, 12) else r.pick([1, 1, 1, 2, 3, 4])
         add = 1 if t == 1 else (n if t == 2 else 0)
         if hops + add > max_hops:
             continue
@@ -224,7 +224,8 @@ def gen_extcom_api(r):
         return "ec-missing"
     if k == 12:
         return "ec-other"
-    return "(ec-unknown %d %s)" % (r.pick([0, 6]), hx(gen_extcom_chunk(r)))
+    c = gen_extcom_chunk(r)
+    return "(ec-unknown %d %s)" % (c[0] if r.chance(3, 4) else r.pick([0, 6, 256 + c[0]]), hx(c))
 
 
 # ----------------------------------------------------------------------------- attributes on the wire
@@ -324,11 +325,42 @@ def gen_api_segments(r):
             t = r.pick([0, 5, 255, 256, 257, 258, 4294967295, 2147483648])
         if r.chance(1, 25):
             ns = [r.pick(ASNS) for _ in range(r.pick([256, 257, 300, 511, 512]))]
+        if r.chance(1, 25):
+            ns = []
         out.append("(%d (%s))" % (t, " ".join(str(n) for n in ns)))
     return "(as-path (%s))" % " ".join(out)
 
 
+def gen_big_api(r):
+    """attribute values around the two size limits: one 4096-octet UPDATE (the encoder must refuse, not
+    panic) and the largest value any UPDATE can carry (65508 octets: the API must refuse what is longer)"""
+    k = r.below(7)
+    if k == 0:      # 4 octets each; 1011/1012 straddle the 4096-octet message, 16377/16378 the value limit
+        n = r.pick([1000, 1011, 1012, 1021, 1022, 16377, 16378, 16380, 20000])
+        return "(attr-api (communities (%s)))" % " ".join(str(r.pick(U32S)) for _ in range(n))
+    if k == 1:      # 12 octets each: 5459 * 12 = 65508
+        n = r.pick([337, 338, 5459, 5460, 6000])
+        return "(attr-api (large-communities (%s)))" % " ".join("(%d 1 2)" % r.pick(ASNS) for _ in range(n))
+    if k == 2:      # 8 octets each: 8188 * 8 = 65504
+        n = r.pick([505, 506, 8188, 8189, 9000])
+        return "(attr-api (ext-communities (%s)))" % " ".join("(two-as t 2 65001 %d)" % (i % 7) for i in range(n))
+    if k == 3:      # 4 octets each
+        n = r.pick([1011, 1012, 16377, 16378])
+        return "(attr-api (cluster-list (%s)))" % " ".join("(ip4 %d)" % r.pick(IP4S) for _ in range(n))
+    if k == 4:      # segments of 255 AS numbers = 1022 octets each: 64 fit the value limit, 65 do not
+        n = r.pick([3, 4, 64, 65, 70])
+        seg = "(2 (%s))" % " ".join(["65001"] * 255)
+        return "(attr-api (as-path (%s)))" % " ".join([seg] * n)
+    if k == 5:      # raw value of an unrecognised optional transitive attribute
+        n = r.pick([4000, 4080, 65508, 65509, 70000])
+        return "(attr-api (unknown 192 200 %s))" % hx([i & 0xff for i in range(n)])
+    n = r.pick([4000, 4080, 65508])     # the same on the wire (decoded by the real UPDATE parser)
+    return "(attr-wire 200 208 %s)" % hx([i & 0xff for i in range(n)])
+
+
 def gen_attr_api(r):
+    if r.chance(1, 150):
+        return gen_big_api(r)
     k = r.below(22)
     if k == 0:
         return "(attr-api (origin %d))" % r.pick([0, 1, 2, 2, 3, 255, 256, 4294967295])
@@ -359,7 +391,8 @@ def gen_attr_api(r):
         return "(attr-api %s)" % r.pick(["missing", "other"])
     # raw (Unknown) messages: known typed codes with well- and ill-formed values, untyped known codes, unknown codes
     code = r.pick([1, 2, 2, 3, 4, 5, 6, 7, 8, 9, 10, 16, 32, 17, 18, 26, 14, 15, 0, 99, 200, 255, 256 + 1, 256 + 2, 512 + 5])
-    flags = r.pick([0, 0x40, 0x80, 0xc0, 0xc0, 0xe0, 0xd0, 0x100 + 0xc0, 4294967295])
+    flags = r.pick([0, 0, CANON.get(code % 256, 0xc0), CANON.get(code % 256, 0xc0), 0x40, 0x80, 0xc0, 0xe0, 0xd0,
+                    0x100 + 0xc0, 4294967295])
     valid = r.chance(1, 2)
     val = gen_wire_value(r, code % 256, valid)
     return "(attr-api (unknown %d %d %s))" % (flags, code, hx(val))
@@ -398,7 +431,7 @@ def gen_nlri_entry(r, fam):
     bits = r.pick([0, 1, 7, 8, 9, 24, maxb - 1, maxb, maxb, maxb + 1]) if r.chance(1, 2) else r.below(maxb + 1)
     if fam in ("v4", "v6"):
         return [bits] + prefix_bytes(r, width, min(bits, maxb))
-    nl = r.pick([1, 1, 1, 2, 3, 5])
+    nl = r.pick([1, 1, 1, 2, 3, 5, 7, 8, 9, 10, 11, 12]) if r.chance(1, 6) else r.pick([1, 1, 1, 2, 3, 5])
     lb = labels_bytes(r, nl)
     if fam in ("lv4", "lv6"):
         return [(nl * 24 + bits) & 0xff] + lb + prefix_bytes(r, width, min(bits, maxb))
@@ -437,6 +470,9 @@ def gen_nlri_api(r):
     k = r.below(10)
     v6 = r.chance(1, 3)
     s = astr(r, "ip6" if v6 else "ip4", 12)
+    if r.chance(1, 3):      # an address with low bits set: 10.0.0.1, 10.1.0.0, 2001:db8::1 ...
+        s = "(ip6 %d)" % r.pick([0x20010db8 << 96, (0x20010db8 << 96) + 1, (0x20010db8 << 96) + (1 << 64)]) if v6 \
+            else "(ip4 %d)" % r.pick([0x0a000000, 0x0a000001, 0x0a010000, 0x0a000100, 0x0a800000])
     maxb = 128 if v6 else 32
     plen = r.pick([0, 1, 8, 24, maxb, maxb, maxb + 1, 129, 200, 255, 256, 257, 4294967295]) if r.chance(1, 2) else r.below(maxb + 1)
     labels = " ".join(str(r.pick([0, 3, 100, 1048575, 1048576, 4294967295])) for _ in range(r.pick([0, 1, 1, 1, 2, 3, 9, 10, 11, 21, 40])))
@@ -464,14 +500,57 @@ def mutate(r, b):
     return b
 
 
+def ls_tlv_types(b):
+    out, pos = set(), 0
+    while pos + 4 <= len(b):
+        out.add((b[pos] << 8) | b[pos + 1])
+        pos += 4 + ((b[pos + 2] << 8) | b[pos + 3])
+    return out
+
+
+def gen_explore_api(r):
+    """prost messages of kinds outside the model: must never panic; what is accepted must be safe and stable"""
+    k = r.below(11)
+    strs = lambda n: "(%s)" % " ".join(astr(r, r.pick(["ip4", "ip6"]), 30) for _ in range(n))
+    n6 = lambda: " ".join(str(r.pick([0, 1, 2, 3, 4, 5, 24, 33, 129, 255, 256, 16777215, 16777216, 4294967295])) for _ in range(6))
+    if k == 0:
+        fam = r.pick([(0, 0), (1, 1), (2, 1), (1, 128), (1, 133), (2, 133), (1, 134), (25, 70), (65536, 256)])
+        return "(x api-mpreach (%d %d) %s x)" % (fam[0], fam[1], strs(r.pick([0, 0, 1, 1, 2])))
+    if k == 1:
+        return "(x api-tunnel-encap (%s) () x)" % n6()
+    if k == 2:
+        return "(x api-prefix-sid (%s) () x)" % n6()
+    if k == 3:
+        return "(x api-ls () () x)"
+    if k == 4:
+        return "(x api-evpn-macadv (%s) %s x)" % (n6(), strs(1))
+    if k == 5:
+        return "(x api-evpn-ead (%s) () x)" % n6()
+    if k == 6:
+        return "(x api-evpn-prefix (%s) %s x)" % (n6(), strs(2))
+    if k == 7:
+        return "(x api-srpolicy (%s) () %s)" % (n6(), hx(rand_bytes(r, r.pick([0, 3, 4, 4, 5, 15, 16, 16, 17]))))
+    if k == 8:
+        return "(x api-rtc (%s) () x)" % n6()
+    if k == 9:
+        fam = r.pick([(1, 133), (2, 133), (1, 1), (1, 134), (25, 70)])
+        return "(x api-flowspec (%d %d) () x)" % fam
+    fam = r.pick([(1, 1), (2, 1), (1, 133), (25, 70), (1, 128), (16388, 71)])
+    return "(x api-prefix-family (%d %d %d) %s x)" % (fam[0], fam[1], r.pick([0, 8, 24, 32, 33, 128]), strs(1))
+
+
 def gen_explore(r):
+    if r.chance(1, 3):
+        return gen_explore_api(r)
     """pristine fixtures (`attr-`/`nlri-`: exact round trip demanded) and mutated ones (`mattr-`/`mnlri-`:
     no panic, accepted back, display stable)"""
     pristine = r.chance(1, 3)
     if ATTR_SEEDS and (not NLRI_SEEDS or r.chance(1, 2)):
         name, code, flags, b = r.pick(ATTR_SEEDS)
         if name == "ls" and r.chance(1, 3):                 # several TLVs in one BGP-LS attribute
-            b = b + r.pick([s for s in ATTR_SEEDS if s[0] == "ls"])[3]
+            b2 = r.pick([s for s in ATTR_SEEDS if s[0] == "ls"])[3]
+            if not (ls_tlv_types(b) & ls_tlv_types(b2)):    # a TLV type appears once per attribute
+                b = b + b2
         if not pristine:
             b = mutate(r, b)
         if len(b) > 255:
@@ -487,12 +566,69 @@ def gen_explore(r):
     return "(x attr-none 23 192 x)"
 
 
+def gen_grpc(r):
+    """AddPath then ListPath through the real GrpcService: a mostly valid prefix with 0-4 attributes, among them
+    the ones local_path consumes (next hop, raw MP_REACH with readable / unreadable next hop) or drops
+    (ORIGINATOR_ID, CLUSTER_LIST)"""
+    v6 = r.chance(1, 4)
+    addr = "(ip6 %d)" % (0x20010db8 << 96) if v6 else "(ip4 %d)" % r.pick([0x0a000000, 0xc0000200, 0x0a000001])
+    plen = r.pick([8, 24, 32, 64]) if v6 else r.pick([8, 24, 32, 33])
+    k = r.below(6)
+    if k < 3:
+        nlri = "(prefix %s %d)" % (addr, plen)
+    elif k < 5:
+        nlri = "(labeled (%s) %d %s)" % (" ".join(str(r.pick([3, 100, 1048575])) for _ in range(r.pick([1, 1, 2]))), plen, addr)
+    else:
+        nlri = "(vpn (100) (some (rd2 65001 %d)) %d %s)" % (r.pick([1, 7]), plen, addr)
+    attrs = []
+    for _ in range(r.pick([0, 1, 2, 2, 3, 4])):
+        j = r.below(14)
+        if j == 0:
+            attrs.append("(origin %d)" % r.pick([0, 1, 2, 3]))
+        elif j == 1:
+            attrs.append(gen_api_segments(r))
+        elif j in (2, 3):
+            attrs.append("(next-hop %s)" % astr(r, r.pick(["ip4", "ip6"]), 10))
+        elif j == 4:
+            attrs.append("(med %d)" % r.pick(U32S))
+        elif j == 5:
+            attrs.append("(local-pref %d)" % r.pick(U32S))
+        elif j == 6:
+            attrs.append("(communities (%s))" % " ".join(str(r.pick(U32S)) for _ in range(r.pick([0, 1, 2]))))
+        elif j == 7:
+            attrs.append("(originator-id %s)" % astr(r, "ip4", 10))
+        elif j == 8:
+            attrs.append("(cluster-list (%s))" % " ".join(astr(r, "ip4", 5) for _ in range(r.pick([0, 1, 2]))))
+        elif j == 9:
+            attrs.append("(ext-communities (%s))" % " ".join(gen_extcom_api(r) for _ in range(r.pick([1, 2]))))
+        elif j == 10:
+            attrs.append("(aggregator %d %s)" % (r.pick(ASNS), astr(r, "ip4", 10)))
+        elif j == 11:      # raw MP_REACH: afi safi nh_len nexthop reserved, well-formed or truncated / odd lengths
+            nh = be(r.pick(IP4S), 4) if r.chance(1, 2) else be(r.pick(IP6S), 16)
+            b = [0, 1, 1, len(nh)] + nh + [0]
+            m = r.below(6)
+            if m == 0:
+                b = b[:r.below(len(b))]
+            elif m == 1:
+                b[3] = r.pick([0, 3, 5, 12, 32, 255])
+            elif m == 2:
+                b = b[:-1]
+            attrs.append("(unknown %d 14 %s)" % (r.pick([0, 0x80]), hx(b)))
+        elif j == 12:
+            attrs.append("(unknown %d %d %s)" % (r.pick([0xc0, 0xe0, 0x80]), r.pick([200, 99]), hx(rand_bytes(r, r.pick([0, 1, 4])))))
+        else:
+            attrs.append("atomic-aggregate")
+    return "(grpc %s (%s))" % (nlri, " ".join(attrs))
+
+
 def gen(seed, n, tier):
     r = Rng(seed * 1000003 + 17)
     out = []
     for _ in range(n):
-        k = r.below(20)
-        if k < 6:
+        k = r.below(22)
+        if k >= 20:
+            out.append(gen_grpc(r))
+        elif k < 6:
             out.append(gen_attr_wire(r))
         elif k < 12:
             out.append(gen_attr_api(r))
